@@ -6,6 +6,7 @@ CONSTANTS
   MaxDir = 3
   Sizes <- SizesAll
   Dev <- NoDev
+  EnvOn <- EnvNone
   MaxHist = 1000
 INVARIANT DumpInv
 CHECK_DEADLOCK FALSE
